@@ -133,7 +133,7 @@ def run(ctx):
     if ctx.opts.get('depth'): plan = {'dev': int(ctx.opts['depth'])}
     feats = w1.FEATURES
     jobs, vecs = [], set()
-    sharp = ['libscript', 'invars', 'lib2', 'reparam', 'provide', 'toolpath', 'srcmod', 'twovar']
+    sharp = ['libscript', 'invars', 'lib2', 'reparam', 'provide', 'toolpath', 'srcmod', 'twovar', 'coscript']
     for mode, d in plan.items():
         if d <= 0: continue
         for L in range(1, d + 1):
